@@ -149,6 +149,33 @@ def nontrivial(ops):
     return sum(1 for o in ops if o[0] in ("NewRecord", "Factory")) >= 2
 
 
+def attached_bundle_programs():
+    """fixed programs: a document of its own, with its own binding of a prefix (or its own default namespace), attached
+    with add_bundle under an identifier homed in ITS scope to a document that binds the same prefix (default) otherwise"""
+    U1, U2 = "http://example.org/doc/", "http://example.org/bundle/"
+    out = []
+    for how in ("prefix", "default", "plain"):
+        p = [["NewDoc"], ["NewDoc"]]
+        if how == "prefix":
+            p += [["AddNs", ["d", "0"], "ex", U1], ["AddNs", ["d", "1"], "ex", U2]]
+            ident = ["Q", "ex", U2, "b1"]
+            names = ("ex:e1", "ex:k")
+        elif how == "default":
+            p += [["SetDefault", ["d", "0"], U1], ["SetDefault", ["d", "1"], U2], ["AddNs", ["d", "0"], "ex", U1]]
+            ident = ["Q", "", U2, "b1"]
+            names = ("e1", "k")
+        else:
+            p += [["AddNs", ["d", "0"], "ex", U1], ["AddNs", ["d", "1"], "other", U2]]
+            ident = ["Q", "other", U2, "b1"]
+            names = ("other:e1", "other:k")
+        p += [["NewRecord", ["d", "0"], "Entity", ["S", "ex:top"], []],
+              ["NewRecord", ["d", "1"], "Entity", ["S", names[0]], [[["S", names[1]], ["int", "1"]]]],
+              ["AddBundleDoc", "0", "1", ident, [] if how == "default" else (["ex"] if how == "prefix" else ["other"])],
+              ["ExportJson", "0"]]
+        out.append(p)
+    return out
+
+
 def run(tier, seed, log, model_runs=True, enlarged=False):
     return worldprop.run(PROP, tier, seed, log, model_runs, enlarged, C01Oracle, ["json", "json", "mixed"],
                          n_quick=160, n_thorough=3000, classify=classify, nontrivial=nontrivial,
@@ -159,7 +186,7 @@ def run(tier, seed, log, model_runs=True, enlarged=False):
                                    "serialised with 5 json.dump option sets, re-loaded and compared by strict content (kind, "
                                    "identifier URI, attribute URI, value with Python kind/datatype/lang/offset, multiplicity, "
                                    "bundle); non-trivial = >=2 record-creating calls",
-                         extra_cases=__import__('harness.progs', fromlist=['x']).scoping_programs(("ExportJson",)) + __import__('harness.progs', fromlist=['x']).value_grid_programs(("ExportJson",)) + __import__('harness.progs', fromlist=['x']).subtype_programs(("ExportJson",)),
+                         extra_cases=attached_bundle_programs() + __import__('harness.progs', fromlist=['x']).scoping_programs(("ExportJson",)) + __import__('harness.progs', fromlist=['x']).value_grid_programs(("ExportJson",)) + __import__('harness.progs', fromlist=['x']).subtype_programs(("ExportJson",)),
                          theorem_note="C01_* over Json.encode_doc / decode_doc")
 
 
